@@ -6,7 +6,7 @@ git -C /repo diff --quiet || { echo "/repo not clean"; exit 3; }
 git -C /repo apply /verif/seeded/$id/patch.diff || exit 3
 ./check $prop --tier $tier > /tmp/seedrun_$id.log 2>&1
 rc=$?
-git -C /repo checkout -- .
+git -C /repo checkout -- . 
 echo "seed=$id prop=$prop tier=$tier rc=$rc"
 grep -E "^VIOLATION|^UNDECIDED|^KNOWN" /tmp/seedrun_$id.log | cut -c1-300
 tail -1 /tmp/seedrun_$id.log
